@@ -187,6 +187,8 @@ Lemma GetL_nf c : GetL c = Z.land (Z.shiftr c 8) (Z.ones 8).
 Proof. unfold GetL, u8. now rewrite Z.land_ones by lia. Qed.
 Lemma GetUnOp_nf c : GetUnOp c = Z.land (Z.shiftr c 0) (Z.ones 8).
 Proof. unfold GetUnOp. rewrite <- (Z.shiftr_0_r c) at 1. now rewrite (dec_u8_land _ _ 255 8) by (try reflexivity; lia). Qed.
+Lemma GetUnOpK_nf c : GetUnOpK c = Z.land (Z.shiftr c 0) (Z.ones 8).
+Proof. apply GetUnOp_nf. Qed.
 Lemma GetM_nf c : GetM c = Z.land (Z.shiftr c 0) (Z.ones 8).
 Proof. apply dec_u8. Qed.
 Lemma GetN_nf c : GetN c = Z.land (Z.shiftr c 0) (Z.ones 16).
@@ -194,7 +196,7 @@ Proof. apply dec_u16. Qed.
 
 Ltac nf :=
   rewrite ?GetA_nf, ?GetB_nf, ?GetC_nf, ?GetX_nf, ?GetF_nf, ?HasType1_nf, ?HasType4a_nf,
-          ?TypePfx_nf, ?HasType0_nf, ?GetL_nf, ?GetM_nf, ?GetN_nf;
+          ?TypePfx_nf, ?HasType0_nf, ?GetL_nf, ?GetM_nf, ?GetN_nf, ?GetUnOpK_nf;
   unfold GetY, GetJ, GetUnOpK, GetKIndex, GetClStackOffset;
   rewrite ?getYorJ_nf, ?GetUnOp_nf, ?GetN_nf; fold (GetN).
 
@@ -241,7 +243,7 @@ Lemma type4b_fields f op a l : flag_ok f -> 0 <= op < 2^8 -> reg_ok a -> 0 <= l 
   let w := mkType4b f op a l in
   HasType1 w = false /\ TypePfx w = Type4Pfx /\ HasType4a w = false /\ GetF w = (f =? 1) /\
   GetUnOpK w = op /\ GetA w = a /\ GetL w = l.
-Proof. start0. unfold encodeZ. raw op. start1; fin. Show. Qed.
+Proof. start0. unfold encodeZ. raw op. start1; fin. Qed.
 
 (* Type5:  0100FaJJ AAAAAAAA DDDDDDDD DDDDDDDD, D as an unsigned 16-bit field *)
 Lemma type5_fields f op a d : flag_ok f -> 0 <= op < 2^2 -> reg_ok a -> 0 <= d < 2^16 ->
@@ -267,3 +269,181 @@ Lemma type0_fields f a : flag_ok f -> reg_ok a ->
   let w := mkType0 f a in
   HasType1 w = false /\ HasType0 w = true /\ TypePfx w = Type0Pfx /\ GetF w = (f =? 1) /\ GetA w = a.
 Proof. start; fin. Qed.
+
+(* ================================================================ signed offsets, SetOffset, SetKIndex *)
+Lemma s16_u16 d : - 2^15 <= d < 2^15 -> s16 (u16 d) = d.
+Proof.
+  intros H. unfold s16, u16. rewrite Z.mod_mod by lia.
+  assert (Hm := Z.mod_pos_bound d (2^16) ltac:(lia)).
+  assert (Hd := Z.div_mod d (2^16) ltac:(lia)).
+  destruct (Z.ltb_spec (d mod 2^16) (2^15)); nia.
+Qed.
+
+Lemma s16_range z : - 2^15 <= s16 z < 2^15.
+Proof.
+  unfold s16. assert (Hm := Z.mod_pos_bound z (2^16) ltac:(lia)).
+  destruct (Z.ltb_spec (z mod 2^16) (2^15)); lia.
+Qed.
+
+Lemma s16_id z : - 2^15 <= z < 2^15 -> s16 z = z.
+Proof.
+  intros H. unfold s16.
+  assert (Hm := Z.mod_pos_bound z (2^16) ltac:(lia)).
+  assert (Hd := Z.div_mod z (2^16) ltac:(lia)).
+  destruct (Z.ltb_spec (z mod 2^16) (2^15)); nia.
+Qed.
+
+(* outside the int16 range the conversion changes the value: this is the silent truncation *)
+Lemma s16_wraps z : ~ (- 2^15 <= z < 2^15) -> s16 z <> z.
+Proof. intros H E. apply H. rewrite <- E. apply s16_range. Qed.
+
+Lemma u16_range z : 0 <= u16 z < 2^16.
+Proof. apply Z.mod_pos_bound. lia. Qed.
+
+Lemma u16_low c x : 0 <= x < 2^16 -> u16 (Z.lor (Z.land c (Z.shiftl 65535 16)) x) = x.
+Proof.
+  intros Hx. unfold u16. rewrite <- Z.land_ones by lia. rewrite Z.land_lor_distr_l.
+  rewrite <- Z.land_assoc. change (Z.land (Z.shiftl 65535 16) (Z.ones 16)) with 0.
+  rewrite Z.land_0_r, Z.lor_0_l, Z.land_ones by lia. apply Z.mod_small; lia.
+Qed.
+
+Lemma high_kept c x p k : 0 <= x < 2^16 -> 16 <= p -> 0 <= k -> p + k <= 32 ->
+  Z.land (Z.shiftr (Z.lor (Z.land c (Z.shiftl 65535 16)) x) p) (Z.ones k) = Z.land (Z.shiftr c p) (Z.ones k).
+Proof.
+  intros Hx Hp Hk Hpk. apply Z.bits_inj'. intros n Hn.
+  rewrite !Z.land_spec, !Z.shiftr_spec, Z.lor_spec, Z.land_spec, Z.shiftl_spec by lia.
+  rewrite Z.testbit_ones_nonneg by lia.
+  destruct (Z.ltb_spec n k); [|now rewrite !andb_false_r].
+  rewrite !andb_true_r. rewrite (testbit_small x 16) by lia. rewrite orb_false_r.
+  change 65535 with (Z.ones 16). rewrite Z.testbit_ones_nonneg by lia.
+  destruct (Z.ltb_spec (n + p - 16) 16); [apply andb_true_r|lia].
+Qed.
+
+Lemma SetOffset_fields c d : - 2^15 <= d < 2^15 ->
+  GetOffset (SetOffset c d) = d /\
+  HasType1 (SetOffset c d) = HasType1 c /\ TypePfx (SetOffset c d) = TypePfx c /\
+  GetF (SetOffset c d) = GetF c /\ GetJ (SetOffset c d) = GetJ c /\ GetA (SetOffset c d) = GetA c.
+Proof.
+  intros Hd. unfold SetOffset, encodeDoff. assert (Hu := u16_range d). split.
+  - unfold GetOffset. rewrite u16_low by lia. now apply s16_u16.
+  - remember (u16 d) as x. clear Heqx. nf. now rewrite !(high_kept c x) by lia.
+Qed.
+
+Lemma SetKIndex_fields c i : 0 <= i < 2^16 ->
+  GetKIndex (SetKIndex c i) = i /\
+  HasType1 (SetKIndex c i) = HasType1 c /\ TypePfx (SetKIndex c i) = TypePfx c /\
+  GetF (SetKIndex c i) = GetF c /\ GetY (SetKIndex c i) = GetY c /\ GetA (SetKIndex c i) = GetA c.
+Proof.
+  intros Hi. unfold SetKIndex, encodeN. split.
+  - unfold GetKIndex. now rewrite u16_low by lia.
+  - nf. now rewrite !(high_kept c i) by lia.
+Qed.
+
+(* Type5 with a signed jump offset *)
+Lemma type5_offset f op a d : flag_ok f -> 0 <= op < 2^2 -> reg_ok a -> - 2^15 <= d < 2^15 ->
+  let w := mkType5 f op a (encodeDoff d) in
+  HasType1 w = false /\ TypePfx w = Type5Pfx /\ GetF w = (f =? 1) /\ GetJ w = op /\ GetA w = a /\ GetOffset w = d.
+Proof.
+  intros Hf Hop Ha Hd w. subst w. unfold encodeDoff. assert (Hu := u16_range d).
+  destruct (type5_fields f op a (u16 d) Hf Hop Ha Hu) as (H1 & H2 & H3 & H4 & H5 & H6 & H7).
+  repeat split; auto. unfold GetOffset. rewrite H7. now apply s16_u16.
+Qed.
+
+(* LoadSmallInt inlines exactly the integers of the int16 range, and the inlined literal reads back *)
+Lemma LoadSmallInt_exact r n : reg_ok r ->
+  match LoadSmallInt r n with
+  | Some w => - 2^15 <= n < 2^15 /\ GetY w = OpInt16 /\ GetA w = r /\ Lit16ToInt16 (GetN w) = n
+  | None => ~ (- 2^15 <= n < 2^15)
+  end.
+Proof.
+  intros Hr. unfold LoadSmallInt. destruct (Z.eqb_spec (s16 n) n) as [E|E].
+  - assert (Hn : - 2^15 <= n < 2^15) by (rewrite <- E; apply s16_range).
+    rewrite E. unfold LoadInt16, Lit16FromInt16, Lit16ToInt16. assert (Hu := u16_range n).
+    destruct (type3_fields Off OpInt16 r (u16 n)) as (_ & _ & _ & H4 & H5 & H6 & _);
+      unfold flag_ok, Off, OpInt16; try lia; auto.
+    repeat split; try lia; auto. unfold Off, OpInt16 in H6. rewrite H6. now apply s16_u16.
+  - intros H. apply E. now apply s16_id.
+Qed.
+
+(* ================================================================ instruction kind *)
+Lemma type_of_mk :
+  (forall a b c op, reg_ok a -> reg_ok b -> reg_ok c -> 0 <= op < 2^4 -> type_of (mkType1 op a b c) = T1) /\
+  (forall f a b c, flag_ok f -> reg_ok a -> reg_ok b -> reg_ok c -> type_of (mkType2 f a b c) = T2) /\
+  (forall f op a n, flag_ok f -> 0 <= op < 2^2 -> reg_ok a -> 0 <= n < 2^16 -> type_of (mkType3 f op a n) = T3) /\
+  (forall f op a b, flag_ok f -> 0 <= op < 2^8 -> reg_ok a -> reg_ok b -> type_of (mkType4a f op a b) = T4a) /\
+  (forall f op a l, flag_ok f -> 0 <= op < 2^8 -> reg_ok a -> 0 <= l < 2^8 -> type_of (mkType4b f op a l) = T4b) /\
+  (forall f op a d, flag_ok f -> 0 <= op < 2^2 -> reg_ok a -> 0 <= d < 2^16 -> type_of (mkType5 f op a d) = T5) /\
+  (forall f a b i, flag_ok f -> reg_ok a -> reg_ok b -> 0 <= i < 2^8 -> type_of (mkType6 f a b i) = T6) /\
+  (forall f a b c, flag_ok f -> reg_ok a -> reg_ok b -> reg_ok c -> type_of (mkType7 f a b c) = T7) /\
+  (forall f a, flag_ok f -> reg_ok a -> type_of (mkType0 f a) = T0).
+Proof.
+  repeat split; intros; unfold type_of.
+  - destruct (type1_fields a b c op) as (-> & _); auto.
+  - destruct (type2_fields f a b c) as (-> & -> & _); auto.
+  - destruct (type3_fields f op a n) as (-> & -> & _); auto.
+  - destruct (type4a_fields f op a b) as (-> & -> & -> & _); auto.
+  - destruct (type4b_fields f op a l) as (-> & -> & -> & _); auto.
+  - destruct (type5_fields f op a d) as (-> & -> & _); auto.
+  - destruct (type6_fields f a b i) as (-> & -> & _); auto.
+  - destruct (type7_fields f a b c) as (-> & -> & _); auto.
+  - destruct (type0_fields f a) as (-> & _ & -> & _); auto.
+Qed.
+
+(* ================================================================ the umbrella statement *)
+Definition encode_decode_roundtrip_statement : Prop :=
+  (forall a b c op, reg_ok a -> reg_ok b -> reg_ok c -> 0 <= op < 2^4 ->
+     let w := mkType1 op a b c in
+     HasType1 w = true /\ GetX w = op /\ GetA w = a /\ GetB w = b /\ GetC w = c) /\
+  (forall f a b c, flag_ok f -> reg_ok a -> reg_ok b -> reg_ok c ->
+     let w := mkType2 f a b c in
+     HasType1 w = false /\ TypePfx w = Type2Pfx /\ GetF w = (f =? 1) /\ GetA w = a /\ GetB w = b /\ GetC w = c) /\
+  (forall f op a n, flag_ok f -> 0 <= op < 2^2 -> reg_ok a -> 0 <= n < 2^16 ->
+     let w := mkType3 f op a n in
+     HasType1 w = false /\ TypePfx w = Type3Pfx /\ GetF w = (f =? 1) /\ GetY w = op /\ GetA w = a /\
+     GetN w = n /\ GetKIndex w = n) /\
+  (forall f op a b, flag_ok f -> 0 <= op < 2^8 -> reg_ok a -> reg_ok b ->
+     let w := mkType4a f op a b in
+     HasType1 w = false /\ TypePfx w = Type4Pfx /\ HasType4a w = true /\ GetF w = (f =? 1) /\
+     GetUnOp w = op /\ GetA w = a /\ GetB w = b) /\
+  (forall f op a l, flag_ok f -> 0 <= op < 2^8 -> reg_ok a -> 0 <= l < 2^8 ->
+     let w := mkType4b f op a l in
+     HasType1 w = false /\ TypePfx w = Type4Pfx /\ HasType4a w = false /\ GetF w = (f =? 1) /\
+     GetUnOpK w = op /\ GetA w = a /\ GetL w = l) /\
+  (forall f op a d, flag_ok f -> 0 <= op < 2^2 -> reg_ok a -> 0 <= d < 2^16 ->
+     let w := mkType5 f op a d in
+     HasType1 w = false /\ TypePfx w = Type5Pfx /\ GetF w = (f =? 1) /\ GetJ w = op /\ GetA w = a /\
+     GetClStackOffset w = d /\ u16 w = d) /\
+  (forall f op a d, flag_ok f -> 0 <= op < 2^2 -> reg_ok a -> - 2^15 <= d < 2^15 ->
+     let w := mkType5 f op a (encodeDoff d) in
+     HasType1 w = false /\ TypePfx w = Type5Pfx /\ GetF w = (f =? 1) /\ GetJ w = op /\ GetA w = a /\ GetOffset w = d) /\
+  (forall f a b i, flag_ok f -> reg_ok a -> reg_ok b -> 0 <= i < 2^8 ->
+     let w := mkType6 f a b i in
+     HasType1 w = false /\ TypePfx w = Type6Pfx /\ GetF w = (f =? 1) /\ GetA w = a /\ GetB w = b /\ GetM w = i) /\
+  (forall f a b c, flag_ok f -> reg_ok a -> reg_ok b -> reg_ok c ->
+     let w := mkType7 f a b c in
+     HasType1 w = false /\ TypePfx w = Type7Pfx /\ GetF w = (f =? 1) /\ GetA w = a /\ GetB w = b /\ GetC w = c) /\
+  (forall f a, flag_ok f -> reg_ok a ->
+     let w := mkType0 f a in
+     HasType1 w = false /\ HasType0 w = true /\ TypePfx w = Type0Pfx /\ GetF w = (f =? 1) /\ GetA w = a).
+
+Lemma encode_decode_roundtrip_all : encode_decode_roundtrip_statement.
+Proof.
+  repeat apply conj.
+  - exact type1_fields.
+  - exact type2_fields.
+  - exact type3_fields.
+  - exact type4a_fields.
+  - exact type4b_fields.
+  - exact type5_fields.
+  - exact type5_offset.
+  - exact type6_fields.
+  - exact type7_fields.
+  - exact type0_fields.
+Qed.
+
+(* the hypotheses are satisfiable *)
+Example roundtrip_inhabited :
+  reg_ok (CellReg 254) /\ reg_ok (ValueReg 0) /\ flag_ok On /\
+  GetA (mkType1 15 (CellReg 254) (ValueReg 0) (CellReg 255)) = CellReg 254 /\
+  GetOffset (mkType5 On OpJumpIf (ValueReg 3) (encodeDoff (-32768))) = -32768.
+Proof. unfold reg_ok, flag_ok, On. repeat split; try (cbn; lia); vm_compute; reflexivity. Qed.
